@@ -61,6 +61,17 @@ fn fpos(file: &str, off: &str) -> Option<FilePos> {
     Some(FilePos::new(FileId(file.parse().ok()?), TextSize::from(off.parse::<u32>().ok()?)))
 }
 
+/// run `f` with the texts of all files and a snapshot of the current workspace
+pub fn with_analysis<T>(f: impl FnOnce(&[String], &ide::Analysis) -> T) -> Option<T> {
+    WS.with(|w| {
+        let w = w.borrow();
+        let host = w.host.as_ref()?;
+        let texts: Vec<String> = w.files.iter().map(|(_, t)| t.clone()).collect();
+        let a = host.snapshot();
+        Some(f(&texts, &a))
+    })
+}
+
 pub fn run(args: &[&str]) -> Option<String> {
     WS.with(|w| {
         let mut w = w.borrow_mut();
